@@ -386,7 +386,10 @@ func (vlog *valueLog) rewrite(bucket uint32, fid uint32) error {
 		if diskVP.Bucket != bucket {
 			return nil
 		}
-		if diskVP.Fid > fid || (diskVP.Fid == fid && diskVP.Offset > ptr.Offset) {
+		// Only the record the LSM points at is live. A newer pointer means the record was
+		// overwritten; an older one means the record never became visible (its write was
+		// lost after the value-log append) and must not be brought to life by GC.
+		if diskVP.Fid != fid || diskVP.Offset != ptr.Offset {
 			return nil
 		}
 
